@@ -256,6 +256,11 @@ def judge_tokens_scoped(dv_in: A.DocView, op, res, depth: int, segs: list[str], 
         k = dict(base_key)
         if ia is not None and ia[0] == "comment" and (ib is None or ib[1] != ia[1]):
             k["effect"] = "foreign-comment-lost"
+            if cut_in is not None:
+                idx = next((n for n, lf in enumerate(rin.leaves) if lf.start == ia[2].start), None)
+                if idx and rin.leaves[idx - 1].type == "comment" and _VALUE_COMMENT_RE.search(rin.leaves[idx - 1].text) \
+                        and cut_in[1] <= rin.leaves[idx - 1].start:
+                    k["below_value_comment"] = "yes"
         elif ib is not None and ib[0] == "comment":
             k["effect"] = "foreign-comment-added-or-moved"
         else:
